@@ -1293,3 +1293,705 @@ func dump(sl SlSl, st Strs, pn Nodes, ws Ws, m map[string]I32s) {
 '''
     src = "package main\n" + HELPERS + dump + "\nfunc main() {\n" + "\n".join(L) + "\n}\n"
     return src
+
+
+# ------------------------------------------------------------------------------------------------
+# second batch of aliasing templates (same conventions as ALIAS)
+
+ALIAS2 = {
+    "iface_values_with_refs": ('''
+type Box struct {
+	v   interface{}
+	tag string
+}
+''', '''
+	var e interface{} = W{s: []int32{int32(k), 2}, name: "bw" + itoa(k), p: &S{1, "bp" + itoa(k)}}
+	w := e.(W)
+	e = nil
+	churn(k)
+	println(w.s[0], w.name, w.p.b)
+	m := map[string]interface{}{}
+	m["a"] = "str" + itoa(k)
+	m["b"] = &S{int32(k), "ps" + itoa(k)}
+	m["c"] = []int32{int32(k)}
+	m["a"] = m["b"]
+	x := m["c"]
+	delete(m, "c")
+	churn(k + 1)
+	println(len(m), x.([]int32)[0], m["a"].(*S).b)
+	b := Box{v: m["b"], tag: "t" + itoa(k)}
+	m = map[string]interface{}{}
+	b2 := b
+	b.v = nil
+	churn(k + 2)
+	println(b2.v.(*S).a, b2.tag)
+'''),
+    "self_append_and_insert": ("", '''
+	s := []string{"a" + itoa(k), "b" + itoa(k)}
+	s = append(s, s...)
+	t := append(s[:1], s[2:]...)
+	u := append([]string{}, s...)
+	s = append(s, "c"+itoa(k))
+	s[0] = "z" + itoa(k)
+	churn(k)
+	println(len(s), len(t), len(u), s[0], t[0], t[2], u[0], u[3], s[4])
+	var n []string
+	n = append(n, u[1:3]...)
+	n = append(n, n...)
+	u = nil
+	churn(k + 1)
+	println(len(n), n[0], n[3])
+'''),
+    "nested_maps": ("", '''
+	outer := map[string]map[string]string{}
+	for i := 0; i < 3; i++ {
+		in := map[string]string{}
+		in["x"] = "x" + itoa(i+k)
+		in["y"] = "y" + itoa(i+k)
+		outer["o"+itoa(i)] = in
+	}
+	old := outer["o1"]
+	outer["o1"] = map[string]string{"x": "replaced" + itoa(k)}
+	outer["o0"]["x"] = outer["o2"]["y"]
+	churn(k)
+	println(old["x"], old["y"], outer["o1"]["x"], outer["o0"]["x"], len(outer))
+	keep := outer["o2"]
+	outer = map[string]map[string]string{}
+	churn(k + 1)
+	println(keep["x"], len(keep), old["y"])
+'''),
+    "array_values_copy": ('''
+type Arr3 [3]string
+
+type HoldArr struct {
+	a Arr3
+	n int32
+}
+''', '''
+	var a Arr3
+	for i := 0; i < 3; i++ {
+		a[i] = "a" + itoa(i+k)
+	}
+	b := a
+	a[0] = "changed" + itoa(k)
+	h := HoldArr{a: b, n: 1}
+	h2 := h
+	h.a[1] = "h" + itoa(k)
+	b = Arr3{}
+	churn(k)
+	println(a[0], a[1], h.a[0], h.a[1], h2.a[1], h2.a[2])
+	var total int32
+	for _, s := range h2.a {
+		total += int32(len(s))
+	}
+	var grid [2]Arr3
+	grid[0] = h2.a
+	grid[1] = a
+	g2 := grid
+	grid[0][0] = ""
+	h2 = HoldArr{}
+	churn(k + 1)
+	println(total, g2[0][0], g2[1][0], grid[0][1])
+'''),
+    "pointer_into_slice_then_grow": ("", '''
+	ws := make(Ws, 0, 2)
+	ws = append(ws, W{s: []int32{int32(k)}, name: "p0" + itoa(k)})
+	ws = append(ws, W{s: []int32{int32(k + 1)}, name: "p1" + itoa(k), p: &S{7, "q" + itoa(k)}})
+	pe := &ws[1]
+	for i := 0; i < 5; i++ {
+		ws = append(ws, W{name: "g" + itoa(i)})
+	}
+	ws[1].name = "moved" + itoa(k)
+	pe.name = pe.name + "+old"
+	*pe = W{s: pe.s, name: "over" + itoa(k), p: pe.p}
+	churn(k)
+	println(pe.name, pe.s[0], pe.p.b, ws[1].name, ws[1].s[0], len(ws))
+	ws = nil
+	churn(k + 1)
+	println(pe.name, pe.p.b)
+	pp := &pe.p
+	*pp = &S{9, "fresh" + itoa(k)}
+	churn(k + 2)
+	println(pe.p.b, (*pp).a)
+'''),
+    "big_blocks": ("", '''
+	big := make([]int32, 0)
+	var olds [][]int32
+	for i := 0; i < 3000; i++ {
+		if i == 10 || i == 100 || i == 1000 || i == 2500 {
+			olds = append(olds, big)
+		}
+		big = append(big, int32(i+k))
+	}
+	str := ""
+	for i := 0; i < 40; i++ {
+		str = str + "0123456789" + itoa(k)
+	}
+	sub := str[200:260]
+	str = ""
+	big2 := make([]string, 300)
+	for i := range big2 {
+		big2[i] = sub[i%50 : i%50+3]
+	}
+	sub = ""
+	churn(k)
+	println(len(big), big[2999], len(olds[0]), olds[1][99], olds[2][999], olds[3][2499], big2[0], big2[299])
+	big = nil
+	big2 = big2[100:101]
+	churn(k + 1)
+	println(olds[3][0], len(olds[2]), big2[0])
+'''),
+    "zero_length": ("", '''
+	e := make([]string, 0)
+	var n []string
+	z := ""
+	e2 := e[0:0]
+	bs := []byte("")
+	s := "abc" + itoa(k)
+	t := s[2:2]
+	u := z + t + ""
+	e = append(e, u)
+	n = append(n, e...)
+	m := map[string]string{}
+	m[""] = t
+	m[u] = s
+	churn(k)
+	println(len(e), len(n), len(e2), len(bs), len(t), len(u), len(m), m[""], n[0] == "")
+	s = ""
+	churn(k + 1)
+	println(m[""], len(m[""]))
+'''),
+    "funcs_in_struct_and_map": ('''
+type Handler struct {
+	name string
+	fn   func(int32) string
+}
+
+func mkHandler(k int) Handler {
+	pre := "h" + itoa(k)
+	return Handler{name: pre, fn: func(v int32) string { return pre + ":" + itoa(int(v)) }}
+}
+''', '''
+	h := mkHandler(k)
+	hs := map[string]Handler{}
+	hs["a"] = h
+	hs["b"] = mkHandler(k + 1)
+	fm := map[int32]func() string{}
+	loc := "loc" + itoa(k)
+	fm[1] = func() string { return loc + "!" }
+	fm[2] = func() string { return h.fn(5) }
+	h = mkHandler(k + 9)
+	loc = "changed"
+	churn(k)
+	println(hs["a"].fn(1), hs["b"].name, fm[1](), fm[2]())
+	f := fm[1]
+	fm = map[int32]func() string{}
+	hs = map[string]Handler{}
+	churn(k + 1)
+	println(f())
+'''),
+    "recursion_with_refs": ('''
+func rec(d int, acc Strs, tag string) (Strs, string) {
+	if d == 0 {
+		return acc, tag
+	}
+	mine := tag + itoa(d)
+	acc = append(acc, mine)
+	a, t := rec(d-1, acc, mine)
+	if d%2 == 0 {
+		return a[1:], t + "e"
+	}
+	return a, t
+}
+''', '''
+	a, t := rec(6, nil, "r"+itoa(k))
+	churn(k)
+	println(len(a), a[0], a[len(a)-1], t)
+	b, _ := rec(3, a, "s")
+	a = nil
+	churn(k + 1)
+	println(len(b), b[0], b[len(b)-1])
+'''),
+    "init_statements_and_shadowing": ('''
+func mkS(k int) I32s { return []int32{int32(k), 1, 2} }
+''', '''
+	s := mkS(k)
+	if s := mkS(k + 1); len(s) > 2 {
+		s = append(s, 9)
+		println(s[0], len(s))
+	} else {
+		println(0)
+	}
+	for t := mkS(k + 2); len(t) < 6; t = append(t, 1) {
+		s := "in" + itoa(len(t))
+		if len(t) == 4 {
+			continue
+		}
+		println(s, t[0])
+	}
+	switch u := "sw" + itoa(k); len(u) {
+	case 3:
+		s := u + "three"
+		println(s)
+	default:
+		println(u)
+	}
+	{
+		s := "block" + itoa(k)
+		{
+			s := s + "inner"
+			println(s)
+		}
+		println(s)
+	}
+	churn(k)
+	println(s[0], len(s))
+'''),
+    "swap_fields_and_map_entries": ("", '''
+	w1 := W{s: []int32{int32(k)}, name: "one" + itoa(k), p: &S{1, "p1" + itoa(k)}}
+	w2 := W{s: []int32{int32(k), 2}, name: "two" + itoa(k), p: &S{2, "p2" + itoa(k)}}
+	w1.s, w2.s = w2.s, w1.s
+	w1.name, w2.name = w2.name, w1.name
+	w1.p, w2.p = w2.p, w1.p
+	w1, w2 = w2, w1
+	m := map[string]string{"a": "va" + itoa(k), "b": "vb" + itoa(k)}
+	m["a"], m["b"] = m["b"], m["a"]
+	arr := [2]*S{w1.p, w2.p}
+	arr[0], arr[1] = arr[1], arr[0]
+	churn(k)
+	println(len(w1.s), w1.name, w1.p.b, len(w2.s), w2.name, w2.p.b, m["a"], m["b"], arr[0].b)
+	w1 = W{}
+	churn(k + 1)
+	println(arr[0].b, arr[1].b, w2.name)
+'''),
+    "iface_method_returning_refs": ('''
+type Namer interface {
+	Name() string
+	Parts() Strs
+}
+
+type Person struct {
+	first, last string
+	tags        Strs
+}
+
+func (p *Person) Name() string { return p.first + " " + p.last }
+func (p *Person) Parts() Strs  { return append(p.tags, p.first) }
+
+func mkNamer(k int) Namer {
+	return &Person{"f" + itoa(k), "l" + itoa(k), []string{"t" + itoa(k)}}
+}
+''', '''
+	n := mkNamer(k)
+	name := n.Name()
+	parts := n.Parts()
+	n2 := n
+	n = mkNamer(k + 1)
+	churn(k)
+	println(name, len(parts), parts[0], parts[1], n2.Name(), n.Name())
+	ns := []Namer{n, n2, mkNamer(k + 2)}
+	n, n2 = nil, nil
+	var total int
+	for _, x := range ns {
+		total += len(x.Name()) + len(x.Parts())
+	}
+	ns = ns[2:]
+	churn(k + 1)
+	println(total, ns[0].Name())
+'''),
+    "variadic": ('''
+func joinAll(sep string, parts ...string) string {
+	r := ""
+	for i, p := range parts {
+		if i > 0 {
+			r = r + sep
+		}
+		r = r + p
+	}
+	return r
+}
+
+func keepTail(parts ...string) Strs {
+	return parts[1:]
+}
+''', '''
+	a := joinAll("-", "x"+itoa(k), "y"+itoa(k), "z")
+	ps := []string{"p" + itoa(k), "q" + itoa(k), "r" + itoa(k)}
+	b := joinAll("+", ps...)
+	t := keepTail(ps...)
+	t2 := keepTail("m"+itoa(k), "n"+itoa(k))
+	ps[1] = "changed"
+	ps = nil
+	churn(k)
+	println(a, b, len(t), t[0], t[1], t2[0], joinAll(","))
+'''),
+}
+
+ALIAS.update(ALIAS2)
+
+LOOP_BODIES2 = {
+    "iface_values_with_refs": ('''
+type BoxL struct {
+	v   interface{}
+	tag string
+}
+''', '''
+	var e interface{} = W{s: []int32{int32(i), 2}, name: "bw" + itoa(i), p: &S{1, "bp"}}
+	w := e.(W)
+	m := map[string]interface{}{}
+	m["a"] = "str" + itoa(i)
+	m["b"] = &S{int32(i), "ps"}
+	m["c"] = []int32{int32(i)}
+	m["a"] = m["b"]
+	delete(m, "c")
+	b := BoxL{v: m["b"], tag: "t" + itoa(i)}
+	b2 := b
+	b.v = nil
+	return w.s[0] + b2.v.(*S).a + int32(len(m))
+'''),
+    "self_append": ("", '''
+	s := []string{"a" + itoa(i), "b"}
+	s = append(s, s...)
+	t := append(s[:1], s[2:]...)
+	u := append([]string{}, s...)
+	var n []string
+	n = append(n, u[1:3]...)
+	n = append(n, n...)
+	return int32(len(s) + len(t) + len(n))
+'''),
+    "nested_maps": ("", '''
+	outer := map[string]map[string]string{}
+	for j := 0; j < 3; j++ {
+		in := map[string]string{}
+		in["x"] = "x" + itoa(i+j)
+		outer["o"+itoa(j)] = in
+	}
+	old := outer["o1"]
+	outer["o1"] = map[string]string{"x": "replaced"}
+	outer["o0"]["x"] = outer["o2"]["x"]
+	return int32(len(old["x"]) + len(outer))
+'''),
+    "array_values": ('''
+type Arr3L [3]string
+
+type HoldArrL struct {
+	a Arr3L
+	n int32
+}
+''', '''
+	var a Arr3L
+	for j := 0; j < 3; j++ {
+		a[j] = "a" + itoa(i+j)
+	}
+	b := a
+	h := HoldArrL{a: b, n: 1}
+	h2 := h
+	h.a[1] = "h" + itoa(i)
+	var grid [2]Arr3L
+	grid[0] = h2.a
+	grid[1] = a
+	g2 := grid
+	grid[0][0] = ""
+	return int32(len(g2[0][0]) + len(h.a[1]))
+'''),
+    "pointer_into_slice_then_grow": ("", '''
+	ws := make(Ws, 0, 2)
+	ws = append(ws, W{s: []int32{int32(i)}, name: "p0"})
+	ws = append(ws, W{s: []int32{int32(i + 1)}, name: "p1" + itoa(i), p: &S{7, "q"}})
+	pe := &ws[1]
+	for j := 0; j < 5; j++ {
+		ws = append(ws, W{name: "g" + itoa(j)})
+	}
+	*pe = W{s: pe.s, name: "over" + itoa(i), p: pe.p}
+	ws = nil
+	return pe.s[0] + int32(len(pe.name))
+'''),
+    "big_blocks": ("", '''
+	big := make([]int32, 0)
+	var old []int32
+	for j := 0; j < 300+i*7; j++ {
+		if j == 100 {
+			old = big
+		}
+		big = append(big, int32(j))
+	}
+	str := ""
+	for j := 0; j < 12; j++ {
+		str = str + "0123456789"
+	}
+	sub := str[20:90]
+	return int32(len(big)+len(sub)) + old[99]
+'''),
+    "funcs_in_struct_and_map": ('''
+type HandlerL struct {
+	name string
+	fn   func(int32) string
+}
+
+func mkHandlerL(k int) HandlerL {
+	pre := "h" + itoa(k)
+	return HandlerL{name: pre, fn: func(v int32) string { return pre + ":" + itoa(int(v)) }}
+}
+''', '''
+	h := mkHandlerL(i)
+	hs := map[string]HandlerL{}
+	hs["a"] = h
+	hs["b"] = mkHandlerL(i + 1)
+	fm := map[int32]func() string{}
+	loc := "loc" + itoa(i)
+	fm[1] = func() string { return loc + "!" }
+	fm[2] = func() string { return h.fn(5) }
+	return int32(len(hs["a"].fn(1)) + len(fm[1]()) + len(fm[2]()))
+'''),
+    "recursion_with_refs": ('''
+func recL(d int, acc Strs, tag string) (Strs, string) {
+	if d == 0 {
+		return acc, tag
+	}
+	mine := tag + itoa(d)
+	acc = append(acc, mine)
+	a, t := recL(d-1, acc, mine)
+	if d%2 == 0 {
+		return a[1:], t + "e"
+	}
+	return a, t
+}
+''', '''
+	a, t := recL(5, nil, "r"+itoa(i))
+	b, _ := recL(2, a, "s")
+	return int32(len(a) + len(t) + len(b))
+'''),
+    "init_statements_and_shadowing": ('''
+func mkSL(k int) I32s { return []int32{int32(k), 1, 2} }
+''', '''
+	s := mkSL(i)
+	var n int32
+	if s := mkSL(i + 1); len(s) > 2 {
+		s = append(s, 9)
+		n += s[3]
+	}
+	for t := mkSL(i + 2); len(t) < 6; t = append(t, 1) {
+		s := "in" + itoa(len(t))
+		if len(t) == 4 {
+			continue
+		}
+		n += int32(len(s))
+	}
+	switch u := "sw" + itoa(i); len(u) {
+	case 3:
+		s := u + "three"
+		n += int32(len(s))
+	default:
+		n += int32(len(u))
+	}
+	return n + s[0]
+'''),
+    "swap_fields_and_map_entries": ("", '''
+	w1 := W{s: []int32{int32(i)}, name: "one" + itoa(i), p: &S{1, "p1"}}
+	w2 := W{s: []int32{int32(i), 2}, name: "two" + itoa(i), p: &S{2, "p2"}}
+	w1.s, w2.s = w2.s, w1.s
+	w1.name, w2.name = w2.name, w1.name
+	w1.p, w2.p = w2.p, w1.p
+	w1, w2 = w2, w1
+	m := map[string]string{"a": "va" + itoa(i), "b": "vb"}
+	m["a"], m["b"] = m["b"], m["a"]
+	return int32(len(w1.s)+len(m["a"])) + w2.p.a
+'''),
+    "iface_method_returning_refs": ('''
+type NamerL interface {
+	Name() string
+	Parts() Strs
+}
+
+type PersonL struct {
+	first, last string
+	tags        Strs
+}
+
+func (p *PersonL) Name() string { return p.first + " " + p.last }
+func (p *PersonL) Parts() Strs  { return append(p.tags, p.first) }
+
+func mkNamerL(k int) NamerL {
+	return &PersonL{"f" + itoa(k), "l" + itoa(k), []string{"t" + itoa(k)}}
+}
+''', '''
+	n := mkNamerL(i)
+	name := n.Name()
+	parts := n.Parts()
+	ns := []NamerL{n, mkNamerL(i + 2)}
+	var total int
+	for _, x := range ns {
+		total += len(x.Name()) + len(x.Parts())
+	}
+	return int32(total + len(name) + len(parts))
+'''),
+    "variadic": ('''
+func joinAllL(sep string, parts ...string) string {
+	r := ""
+	for j, p := range parts {
+		if j > 0 {
+			r = r + sep
+		}
+		r = r + p
+	}
+	return r
+}
+''', '''
+	a := joinAllL("-", "x"+itoa(i), "y", "z")
+	ps := []string{"p" + itoa(i), "q", "r"}
+	b := joinAllL("+", ps...)
+	return int32(len(a) + len(b))
+'''),
+}
+
+LOOP_BODIES.update(LOOP_BODIES2)
+
+
+# ------------------------------------------------------------------------------------------------
+# third batch: constructs compiled through hand-built helper functions / wrappers in the back end
+
+ALIAS3 = {
+    "defer_variants": ('''
+type Closer interface {
+	Close(tag string)
+}
+
+type Res struct {
+	name string
+}
+
+func (r *Res) Close(tag string) { println("close", r.name, tag) }
+
+func useDefers(k int) {
+	r := &Res{name: "r" + itoa(k)}
+	var c Closer = r
+	defer c.Close("iface" + itoa(k))
+	defer r.Close("method" + itoa(k))
+	f := func(s string) { println("fn", s) }
+	defer f("val" + itoa(k))
+	defer println("builtin", "b"+itoa(k))
+	c = &Res{name: "other" + itoa(k)}
+	r = &Res{name: "second" + itoa(k)}
+	f = func(s string) { println("fn2", s) }
+	churn(k)
+	println(c.(*Res).name, r.name)
+}
+''', '''
+	useDefers(k)
+	churn(k)
+'''),
+    "array_value_indexing": ('''
+type Arr3S [3]string
+
+type PairP [2]*S
+
+func mkArr3(k int) Arr3S {
+	var a Arr3S
+	for i := 0; i < 3; i++ {
+		a[i] = "e" + itoa(i+k)
+	}
+	return a
+}
+
+func mkPair(k int) PairP {
+	return PairP{&S{int32(k), "l" + itoa(k)}, &S{int32(k + 1), "r" + itoa(k)}}
+}
+''', '''
+	a := mkArr3(k)
+	var n int32
+	for i, s := range a {
+		n += int32(len(s) + i)
+	}
+	mid := mkArr3(k + 1)[1]
+	p := mkPair(k)[1]
+	for _, q := range mkPair(k + 2) {
+		n += q.a
+	}
+	a = Arr3S{}
+	churn(k)
+	println(n, mid, p.b)
+'''),
+}
+ALIAS.update(ALIAS3)
+
+LOOP_BODIES3 = {
+    "defer_variants": ('''
+var sinkL int32
+
+type CloserL interface {
+	Close(tag string)
+}
+
+type ResL struct {
+	name string
+}
+
+func (r *ResL) Close(tag string) { sinkL += int32(len(r.name) + len(tag)) }
+
+func useDefersL(k int) {
+	r := &ResL{name: "r" + itoa(k)}
+	var c CloserL = r
+	defer c.Close("iface" + itoa(k))
+	defer r.Close("method" + itoa(k))
+	f := func(s string) { sinkL += int32(len(s)) }
+	defer f("val" + itoa(k))
+	c = &ResL{name: "other" + itoa(k)}
+	r = &ResL{name: "second"}
+	sinkL += int32(len(c.(*ResL).name) + len(r.name))
+}
+''', '''
+	sinkL = 0
+	useDefersL(i)
+	return sinkL
+'''),
+    # the three bodies below go through the generated helper $<array type>.$IndexOf (indexing an array VALUE)
+    "range_over_array_value": ('''
+type Arr3R [3]string
+
+func mkArr3R(k int) Arr3R {
+	var a Arr3R
+	for j := 0; j < 3; j++ {
+		a[j] = "e" + itoa(j+k)
+	}
+	return a
+}
+''', '''
+	a := mkArr3R(i)
+	var n int32
+	for j, s := range a {
+		n += int32(len(s) + j)
+	}
+	return n
+'''),
+    "index_of_array_result": ('''
+type Arr3X [3]string
+
+func mkArr3X(k int) Arr3X {
+	var a Arr3X
+	for j := 0; j < 3; j++ {
+		a[j] = "x" + itoa(j+k)
+	}
+	return a
+}
+''', '''
+	return int32(len(mkArr3X(i)[1]))
+'''),
+    "range_over_array_of_pointers": ('''
+type PairPL [2]*S
+''', '''
+	ps := PairPL{&S{int32(i), "l" + itoa(i)}, &S{int32(i + 1), "r"}}
+	var n int32
+	for j, p := range ps {
+		n += p.a + int32(j)
+	}
+	return n
+'''),
+}
+LOOP_BODIES.update(LOOP_BODIES3)
+
+# loop bodies that exercise a recorded root cause: every leak verdict of such a body is attributed to that cause
+KNOWN_CAUSE = {
+    "loop:range_over_array_value": "array-value-IndexOf-helper-keeps-a-count",
+    "loop:index_of_array_result": "array-value-IndexOf-helper-keeps-a-count",
+    "loop:range_over_array_of_pointers": "array-value-IndexOf-helper-keeps-a-count",
+}
